@@ -66,16 +66,19 @@ Proof.
 Qed.
 
 (* ------------------------------------------------------------------------------------------ *)
-(* the invariant that keeps every slice in range.
+(* the invariant that keeps every slice and index expression in range.
    All slices message[TokenStart:i] are guarded by the loop itself (the body is only reached
-   with TokenStart <= i <= len).  The one that needs an invariant is the quoted value
-   message[TokenStart+1 : i-1]: it is taken in ColumnValue with Prev = ColumnQuotedValue, and
-   that combination only arises after an opening quote at an index >= TokenStart and a closing
-   quote at a later index, i.e. with TokenStart + 2 <= i. *)
-Definition inv (i : nat) (st : pst) : Prop :=
+   with TokenStart <= i <= len).  What needs an invariant is the quoted value: in ColumnValue
+   with Prev = ColumnQuotedValue the code reads message[TokenStart], possibly
+   message[TokenStart+1], and slices message[TokenStart+1 : i-1] or (bit-string prefix)
+   message[TokenStart+2 : i-1].  That state combination only arises after an opening quote at
+   an index >= TokenStart and a closing quote at a later index, i.e. TokenStart + 2 <= i; and
+   if the byte at TokenStart is not itself a quote (e.g. it is 'B'), the opening quote is at
+   an index > TokenStart, i.e. TokenStart + 3 <= i. *)
+Definition inv (msg : string) (i : nat) (st : pst) : Prop :=
   match cur st with
-  | SQuoted => prev st = SColValue /\ S (ts st) <= i
-  | SColValue => prev st = SQuoted -> ts st + 2 <= i
+  | SQuoted => prev st = SColValue /\ S (ts st) <= i /\ (byte_at msg (ts st) <> sq -> ts st + 2 <= i)
+  | SColValue => prev st = SQuoted -> ts st + 2 <= i /\ (byte_at msg (ts st) <> sq -> ts st + 3 <= i)
   | SEnd => True
   | _ => prev st <> SQuoted
   end.
@@ -85,9 +88,16 @@ Ltac break_ifs :=
          | |- context [if ?b then _ else _] => destruct b eqn:?
          end.
 
-Lemma body_inv : forall pre msg i st r, i <= length msg -> inv i st ->
+Lemma get_some : forall (s : string) i, i < length s -> get i s = Some (byte_at s i).
+Proof.
+  induction s; simpl; intros i H; [lia|].
+  destruct i; [reflexivity|]. unfold byte_at. simpl. specialize (IHs i ltac:(lia)).
+  unfold byte_at in IHs. destruct (get i s); [reflexivity | discriminate].
+Qed.
+
+Lemma body_inv : forall pre msg i st r, i <= length msg -> inv msg i st ->
   match body pre msg i st r with
-  | BNext i' st' _ => i < i' /\ inv i' st'
+  | BNext i' st' _ => i < i' /\ inv msg i' st'
   | BBreak _ _ => True
   | BRet o => o = Err
   end.
@@ -120,19 +130,33 @@ Proof.
     break_ifs; (split; [lia|]); unfold inv; simpl; try exact Hinv.
     destruct p; simpl; try discriminate; try exact I; try (exfalso; now apply Hinv).
   - (* ColValue *)
-    assert (Hsl : forall o : bool, exists v,
-              (if is_quoted_state p then match i with O => None | S j => slice msg (S t) j end
-               else slice msg t i) = Some v).
-    { intros _. destruct p; simpl; try (rewrite (slice_some msg t i) by lia; eauto).
-      specialize (Hinv eq_refl). destruct i; [lia|]. rewrite slice_some by lia. eauto. }
-    destruct (Hsl true) as [v Hv]. rewrite Hv. clear Hsl Hv.
-    break_ifs; simpl; (split; [lia|]); unfold inv; simpl; try exact I; try discriminate;
-      try (split; [reflexivity | lia]).
-    intros H; specialize (Hinv H); lia.
+    set (sl := if is_quoted_state p then _ else slice msg t i).
+    assert (Hsl : exists v, sl = Some v).
+    { unfold sl. destruct p; simpl; try (rewrite (slice_some msg t i) by lia; eauto).
+      destruct (Hinv eq_refl) as [H2 H3].
+      rewrite (get_some msg t) by lia.
+      destruct (Ascii.eqb_spec (byte_at msg t) "B") as [HB|HB].
+      - assert (Hne : byte_at msg t <> sq) by (rewrite HB; discriminate). specialize (H3 Hne).
+        rewrite (get_some msg (S t)) by lia.
+        destruct i; [lia|].
+        destruct (Ascii.eqb (byte_at msg (S t)) sq); rewrite slice_some by lia; eauto.
+      - destruct i; [lia|]. rewrite slice_some by lia. eauto. }
+    destruct Hsl as [v Hv]. rewrite Hv. clearbody sl. clear Hv.
+    destruct (Ascii.eqb (byte_at msg i) zero) eqn:E0; simpl.
+    + split; [lia | exact I].
+    + destruct (Ascii.eqb (byte_at msg i) " ") eqn:E1; simpl.
+      * split; [lia | unfold inv; simpl; discriminate].
+      * destruct (Ascii.eqb_spec (byte_at msg i) sq) as [Eq|Eq].
+        -- split; [lia|]. unfold inv; simpl. split; [reflexivity|]. split; [lia|].
+           intros Hne. destruct (Nat.eq_dec i t) as [->|]; [contradiction | lia].
+        -- split; [lia|]. unfold inv; simpl. intros H. destruct (Hinv H) as [H2 H3].
+           split; [lia | intros Hne; specialize (H3 Hne); lia].
   - (* Quoted *)
-    destruct Hinv as [Hp Hts]. subst p.
-    break_ifs; (split; [lia|]); unfold inv; simpl; try (split; [reflexivity | lia]).
-    intros _; lia.
+    destruct Hinv as [Hp [Hts Hq]]. subst p.
+    break_ifs; (split; [lia|]); unfold inv; simpl.
+    + split; [reflexivity|]. split; [lia | intros Hne; specialize (Hq Hne); lia].
+    + intros _. split; [lia | intros Hne; specialize (Hq Hne); lia].
+    + split; [reflexivity|]. split; [lia | intros Hne; specialize (Hq Hne); lia].
   - (* End *) split; [lia | exact I].
   - (* Null *) reflexivity.
 Qed.
@@ -144,7 +168,7 @@ Definition lres_good (x : lres) : Prop :=
   match x with LDone _ _ => True | LRet o => o = Err | LOutOfFuel => False end.
 
 Lemma loop_good : forall fuel pre msg i st r,
-  inv i st -> enough (length msg) fuel i -> lres_good (loop fuel pre msg (length msg) i st r).
+  inv msg i st -> enough (length msg) fuel i -> lres_good (loop fuel pre msg (length msg) i st r).
 Proof.
   induction fuel; intros pre msg i st r Hinv [H1 H2]; [lia|].
   simpl. destruct (Nat.ltb_spec (length msg) i) as [Hgt|Hle]; [exact I|].
